@@ -135,6 +135,21 @@ def replay(pid, path):
     return 0
 
 
+def digests(pid, tier, seed, idxs):
+    """Print {index: digest} for the given case indices (used by the cross-process determinism proof)."""
+    global _CHECK
+    _init_worker(pid)
+    sys.stdout = sys.__stdout__
+    _assert_repo()
+    cases = list(_CHECK.cases(tier, seed))
+    out = {}
+    for i in idxs:
+        if i < len(cases):
+            out[str(i)] = _run_one((i, cases[i]))['digest']
+    print('DIGESTS ' + json.dumps(out))
+    return 0
+
+
 # ----------------------------------------------------------------------------- main run
 def run(pid, tier, seed, workers=None, max_cases=None):
     t_start = time.time()
@@ -190,6 +205,21 @@ def run(pid, tier, seed, workers=None, max_cases=None):
                 if r['digest'] != agg['digests'].get(r['idx']):
                     nondet.append(r['idx'])
 
+    # determinism proof (c): a slice re-executed in a second process with a different hash seed (thorough tier; 1 % of cases)
+    n_cross = 0
+    if tier == 'thorough' and not capped and cases:
+        idxs = sorted(set(range(0, len(cases), max(1, len(cases) // max(1, min(40, len(cases) // 100 or 1))))))[:40]
+        env2 = dict(os.environ, PYTHONHASHSEED='4242', VERIF_KEEP_HASHSEED='1')
+        p = subprocess.run([sys.executable, '-B', '-W', 'ignore', os.path.join(VERIF, 'mc', 'run.py'), pid, '--tier', tier,
+                            '--digests', ','.join(map(str, idxs))], capture_output=True, text=True, env=env2)
+        line = [l for l in p.stdout.splitlines() if l.startswith('DIGESTS ')]
+        if line:
+            other = json.loads(line[0][8:])
+            for k, d in other.items():
+                n_cross += 1
+                if agg['digests'].get(int(k)) != d:
+                    nondet.append(int(k))
+    _cleanup_work()
     if not agg['samples'] and cases:
         agg['samples'] = [cases[0], cases[len(cases) // 2], cases[-1]]
 
@@ -261,7 +291,7 @@ def run(pid, tier, seed, workers=None, max_cases=None):
         evaluations=agg['evals'], distinct_nontrivial=agg['nontrivial'],
         rule=check.RULE, samples=_jsonable(agg['samples'][:4]),
         exhaustive=(not capped), cases=len(cases), distinct_cases=n_distinct_cases, cases_completed=done,
-        determinism_rechecks=n_recheck, determinism_mismatches=len(nondet),
+        determinism_rechecks=n_recheck, determinism_mismatches=len(nondet), cross_process_hashseed_rechecks=n_cross,
         known_findings_hit=sorted(known_hit), new_violation_signatures=sorted(new),
         counters=agg['counters'], set_sizes={k: len(v) for k, v in agg['sets'].items()},
         workers=workers,
@@ -289,6 +319,26 @@ def run(pid, tier, seed, workers=None, max_cases=None):
         print(ln)
     sys.stdout.flush()
     return exit_code
+
+
+def _cleanup_work():
+    """Remove per-process scratch directories under /verif/.work whose owning process is gone."""
+    import shutil
+    base = os.path.join(VERIF, '.work')
+    if not os.path.isdir(base):
+        return
+    for name in os.listdir(base):
+        if not name.isdigit():
+            continue
+        try:
+            os.kill(int(name), 0)
+            alive = True
+        except ProcessLookupError:
+            alive = False
+        except PermissionError:
+            alive = True
+        if not alive:
+            shutil.rmtree(os.path.join(base, name), ignore_errors=True)
 
 
 def _freeze(x):
